@@ -283,7 +283,7 @@ def F_cand(ctx, lib):
 
 def A_rewrite(ctx, lib):
     rule = "C03.A-rewrite"
-    ctx.rule(rule, "stable_representation = fold over self.ac.iter().enumerate() of acc AND (ac_i <-> var named ordering.name(Var(i))), starting from true; "
+    ctx.rule(rule, "stable_representation = fold over self.ac.iter().enumerate() of acc AND (ac_i <-> the biodivine variable of position i, named by the tree's naming scheme: shared.bio_naming), starting from true; "
                    "stm_rewriting = fold over formula_order().iter().enumerate() of And(acc, Iff(Variable(name(Var(*new_order))), ac_at(insert_order).to_boolean_expr())), "
                    "starting from Const(true), stored in self.rewrite")
     try:
@@ -295,10 +295,13 @@ def A_rewrite(ctx, lib):
         if env:
             fb = lib.body(env["f"])
             fret = flow.closure_ret(lib, fb)
-            var_i = C("eval_expression", F(ANY, "varset"), ADT("Variable", _0=C("expect", C("VarContainer::name", F(ANY, "ordering"), ADT("Var", _0=F(P(3), "0"))), ANY)))
-            pat1 = C("and", P(2), C("iff", F(P(3), "1"), var_i))
-            pat2 = C("and", P(2), C("iff", var_i, F(P(3), "1")))
-            ok = match(fret, pat1) is not None or match(fret, pat2) is not None
+            names, scheme, info = shared.position_name_pats(lib, F(P(3), "0"))
+            ok = False
+            for nm in names:
+                var_i = C("eval_expression", F(ANY, "varset"), ADT("Variable", _0=nm))
+                pat1 = C("and", P(2), C("iff", F(P(3), "1"), var_i))
+                pat2 = C("and", P(2), C("iff", var_i, F(P(3), "1")))
+                ok = ok or match(fret, pat1) is not None or match(fret, pat2) is not None
             ctx.ob(rule, "stable_representation.step", ok, where=fb.where(), expected="acc.and(&ac_i.iff(&var(name(Var(i))))) with (i, ac_i) the same item", found=flow.show(fret)[:340])
     except LookupError as e:
         ctx.lost(rule, "stable_representation", str(e))
@@ -314,11 +317,14 @@ def A_rewrite(ctx, lib):
             if e:
                 fb = lib.body(e["f"])
                 fret = flow.closure_ret(lib, fb)
-                var_i = ADT("Variable", _0=C("expect", C("VarContainer::name", F(ANY, "ordering"), ADT("Var", _0=F(P(3), "1"))), ANY))
+                names, scheme, info = shared.position_name_pats(lib, F(P(3), "1"))
                 form = C("Formula::to_boolean_expr", C("expect", C("AdfParser::ac_at", OP("Adf::stm_rewriting", 2), F(P(3), "0")), ANY), exact=False)
-                pat1 = ADT("And", _0=C("Box::new", P(2)), _1=C("Box::new", ADT("Iff", _0=C("Box::new", var_i), _1=C("Box::new", form))))
-                pat2 = ADT("And", _0=C("Box::new", P(2)), _1=C("Box::new", ADT("Iff", _0=C("Box::new", form), _1=C("Box::new", var_i))))
-                okm = match(fret, pat1) is not None or match(fret, pat2) is not None
+                okm = False
+                for nm in names:
+                    var_i = ADT("Variable", _0=nm)
+                    pat1 = ADT("And", _0=C("Box::new", P(2)), _1=C("Box::new", ADT("Iff", _0=C("Box::new", var_i), _1=C("Box::new", form))))
+                    pat2 = ADT("And", _0=C("Box::new", P(2)), _1=C("Box::new", ADT("Iff", _0=C("Box::new", form), _1=C("Box::new", var_i))))
+                    okm = okm or match(fret, pat1) is not None or match(fret, pat2) is not None
                 ctx.ob(rule, "stm_rewriting.step", okm, where=fb.where(),
                        expected="And(acc, Iff(Variable(name(Var(*new_order))), ac_at(insert_order).to_boolean_expr())) with (insert_order, new_order) the same item", found=flow.show(fret)[:400])
             # stored into self.rewrite as eval_expression(&expr)
